@@ -326,6 +326,50 @@ theorem C05_sim_kept (w : World α) (op : Op α) (n : Nat) (nd : Node α) (s : N
     simp only [step, nodes_modifyNode, hmn, if_false, ensureSim_nodes]
     exact ⟨nd, hn, hs⟩
 
+/-- **C05 (memo kept).** The memoised derivative result of a quantity is dropped only by
+    `recalculate()` of that quantity: method switches (global or per quantity), Monte Carlo
+    settings, reads and edits elsewhere keep it, so switching the method away and back returns
+    the same numbers. -/
+theorem C05_memo_kept (w : World α) (op : Op α) (n : Nat) (nd : Node α) (r : α × α)
+    (hn : w.nodes[n]? = some nd) (hr : nd.cacheD = some r) (h1 : op ≠ .recalc n) :
+    ∃ nd', (w.step op).1.nodes[n]? = some nd' ∧ nd'.cacheD = some r := by
+  cases op with
+  | setValue i v => exact ⟨nd, by simpa [step] using hn, hr⟩
+  | setError i e => exact ⟨nd, by simpa [step] using hn, hr⟩
+  | setCorr i j r => exact ⟨nd, by simpa [step] using hn, hr⟩
+  | resetCorr => exact ⟨nd, by simpa [step] using hn, hr⟩
+  | setGlobal m => exact ⟨nd, by simpa [step] using hn, hr⟩
+  | readDeriv m k =>
+    simp only [step]; cases w.nodes[m]? <;> exact ⟨nd, hn, hr⟩
+  | read m =>
+    obtain ⟨nd', hn', hc, _⟩ := (quiet_keeps w (.read m) rfl n).node nd hn
+    exact ⟨nd', hn', by rw [hc (by simp [hr]), hr]⟩
+  | touchMc m =>
+    obtain ⟨nd', hn', hc, _⟩ := (quiet_keeps w (.touchMc m) rfl n).node nd hn
+    exact ⟨nd', hn', by rw [hc (by simp [hr]), hr]⟩
+  | recalc m =>
+    have hmn : m ≠ n := fun h => h1 (by rw [h])
+    exact ⟨nd, by simp [step, nodes_modifyNode, hmn, hn], hr⟩
+  | setMethod m meth =>
+    simp only [step, nodes_modifyNode]
+    by_cases h : m = n
+    · subst h; exact ⟨{ nd with method := some meth }, by simp [hn], hr⟩
+    · exact ⟨nd, by simp [h, hn], hr⟩
+  | resetMethod m =>
+    simp only [step, nodes_modifyNode]
+    by_cases h : m = n
+    · subst h; exact ⟨{ nd with method := none }, by simp [hn], hr⟩
+    · exact ⟨nd, by simp [h, hn], hr⟩
+  | setSize m k =>
+    simp only [step, nodes_modifyNode, ensureSim_nodes]
+    by_cases h : m = n
+    · subst h
+      simp only [if_true, hn, Option.map_some]
+      cases hs : nd.sim with
+      | some s => exact ⟨{ nd with size := k, sim := none }, by simp, hr⟩
+      | none => exact ⟨{ nd with size := k, sim := none }, by simp, hr⟩
+    · exact ⟨nd, by simp [h, hn], hr⟩
+
 /-- non-vacuity: a concrete session (c = a*b, d = c*c unfolded) in which `d` is settled -/
 example : settled
     ({ vals := [2.0, 3.0], errs := [0.1, 0.2], corr := [],
